@@ -31,7 +31,7 @@ ASSUMPTIONS = [
     "the key file is named by the root configuration (other placements are C03's subject)",
 ]
 REQUIRED = ["fmt:json", "fmt:yaml", "fmt:bson", "fmt:xml", "fmt:pickle", "session:same", "session:new", "has:secure", "has:bytes",
-            "has:challenge", "has:schemalist", "has:configtype", "nondefault-encoded"]
+            "has:challenge", "has:schemalist", "has:configtype", "nondefault-encoded", "root_key:collides"]
 LEVEL_TEXT = (
     "Generated schemas and reachable valid states saved and re-loaded through all five formats with a strict "
     "typed equality oracle; evidence on the explored states, kills mutants in to_basic/to_python of every encoded "
@@ -173,7 +173,7 @@ def strategy(tier):
             "spec": st.just(spec), "ops": st.lists(ops.single_op(spec), min_size=0, max_size=n), "populate": populate,
             "skip": st.lists(st.integers(0, 40), max_size=4), "session": st.sampled_from(["same", "new"]),
             "dyn": st.lists(st.tuples(st.integers(0, 5), st.sampled_from(["extra1", "extra2", "zz"]), trees.tree_strategy("xml", 4, top_map=False)), max_size=3),
-            "opts": st.fixed_dictionaries({"pretty": st.booleans(), "root_key": st.sampled_from([None, "CONFIG", "root"]), "root_tag": st.sampled_from(["config", "cfg"])}),
+            "opts": st.fixed_dictionaries({"pretty": st.booleans(), "root_key": st.sampled_from([None, "CONFIG", "root", "$top-level-key", "$top-level-key"]), "root_tag": st.sampled_from(["config", "cfg"])}),
         })
     return worlds.schema_spec(tier).map(_augment).flatmap(hist)
 
@@ -512,7 +512,11 @@ def run_case(case, R):
             if fmt == "json":
                 opts = {"pretty": case["opts"]["pretty"]}
             elif fmt == "yaml" and case["opts"]["root_key"]:
-                opts = {"root_key": case["opts"]["root_key"]}
+                rk = case["opts"]["root_key"]
+                if rk == "$top-level-key":  # the option's value is spelled like one of the configuration's own top-level keys
+                    rk = next(c["key"] for c in spec["children"] if c["kind"] not in ("virtual", "method"))
+                    R.label("root_key:collides")
+                opts = {"root_key": rk}
             elif fmt == "xml":
                 opts = {"root_tag": case["opts"]["root_tag"]}
             try:
